@@ -456,30 +456,68 @@ def judge_frames(ctx, rr, corp, flavor):
 # ------------------------------------------------------------------------------------------------
 # close races: no data frame behind the endpoint's close frame
 
-def judge_race(ctx, r, flavor):
+CLOSE_OWED = {"server:peer-close", "server:app-sendClose", "client:peer-close", "client:app-sendClose"}
+# client:app-disconnect: disconnect() documents its close frame as best effort (enqueue, then close(sid)) -> observation only
+
+
+def classify_no_close(r):
+    """a capture without a close frame of the endpoint -> ("violation", symptom, text) | ("inconclusive", text)
+       * the capture ended by EOF: the connection is finished, nothing more can arrive: the close frame
+         was never put on the wire (logical, not timing)                                   -> violation
+       * connection still open, the endpoint answered the liveness probe sent after the generous wait
+         (its write queue is FIFO: everything queued before the pong has been written)     -> violation
+       * connection still open and nothing came back, not even the probe's pong            -> inconclusive
+         (starved machine or stuck endpoint: a wall-clock bound decides nothing)"""
+    kind = r["kind"]
+    if r.get("ended") == "eof" or r.get("probe") == "eof":
+        return ("violation", "no-close-frame-before-eof",
+                "the connection ended (EOF) and no close frame of the %s is on the wire (%d bytes captured): the close frame owed for '%s' was never written" % (kind.split(":")[0], len(r["wire"]) // 2, kind))
+    if r.get("probe") == "pong":
+        return ("violation", "close-frame-never-sent",
+                "connection open, the %s answered a ping sent after every sender had returned (so its write queue was flushed up to the pong), but no close frame is on the wire" % kind.split(":")[0])
+    return ("inconclusive", "no close frame captured; the capture ended by the watchdog (ended=%s probe=%s) with the connection still open and no reply to the liveness probe" % (r.get("ended"), r.get("probe")))
+
+
+def judge_race(ctx, r, flavor, final=False):
+    """-> None when the scenario is settled, else a pending verdict dict that run() resolves with ONE
+    isolated re-run under generous bounds (final=True judges that re-run)."""
     kind = r["kind"]
     side, origin = kind.split(":")
-    ctx.obs("race:%s:scenarios" % kind)
+    if not final:
+        ctx.obs("race:%s:scenarios" % kind)
     if r.get("harness"):
-        ctx.inconcl("closerace %s scenario %s: %s" % (kind, r["i"], r["harness"]))
-        return
+        if final:
+            ctx.inconcl("closerace %s scenario %s: %s (also when re-run in isolation)" % (kind, r["i"], r["harness"]))
+            return None
+        return dict(r=r, flavor=flavor, cls=("inconclusive", r["harness"]))
     wire = bytes.fromhex(r["wire"])
     frames, rest, err = g.decode_all(wire)
     ctx.case(sig="race|%s|%s|%s" % (kind, min(len(frames) // 100, 8), r["calls_after_trigger"] > 0))
-    det = dict(scenario=r["i"], kind=kind, flavor=flavor, seed=ctx.seed, calls=r["calls"], calls_after_trigger=r["calls_after_trigger"], frames=len(frames), wire_len=len(wire))
+    det = dict(scenario=r["i"], kind=kind, flavor=flavor, seed=ctx.seed, calls=r["calls"], calls_after_trigger=r["calls_after_trigger"], frames=len(frames), wire_len=len(wire),
+               ended=r.get("ended"), probe=r.get("probe"), isolated_rerun=final)
     if err:
         ctx.violation("C18:%s:wire:malformed-frame-sent" % side, "close race %s: the endpoint wrote bytes the reference codec rejects (%s) after %d well-formed frames" % (kind, err, len(frames)),
                       dict(det, around=rest[:64].hex()))
-        return
-    if r["calls_after_trigger"] > 0:
+        return None
+    if r["calls_after_trigger"] > 0 and not final:
         ctx.obs("race:%s:scenarios_with_sends_attempted_after_the_close_was_initiated" % kind)
-    ctx.obs("race:data_frames_on_wire", sum(1 for f in frames if f.opcode in (g.OP_TEXT, g.OP_BIN)))
+    if not final:
+        ctx.obs("race:data_frames_on_wire", sum(1 for f in frames if f.opcode in (g.OP_TEXT, g.OP_BIN)))
     at = next((i for i, f in enumerate(frames) if f.opcode == g.OP_CLOSE), None)
     if at is None:
-        ctx.obs("race:%s:no_close_frame_on_wire" % kind)
-        if kind in ("server:peer-close", "server:app-sendClose"):
-            ctx.inconcl("closerace %s scenario %s: no close frame captured" % (kind, r["i"]))
-        return
+        if kind not in CLOSE_OWED:
+            ctx.obs("race:%s:no_close_frame_on_wire" % kind)
+            return None
+        cls = classify_no_close(r)
+        if not final:
+            ctx.obs("race:%s:no_close_frame_in_first_capture" % kind)
+            return dict(r=r, flavor=flavor, cls=cls)
+        if cls[0] == "violation":
+            ctx.violation("C18:%s:close:%s:%s" % (side, cls[1], origin), "close race %s scenario %s, reproduced by an isolated re-run with generous bounds: %s" % (kind, r["i"], cls[2]),
+                          dict(det, wire_tail=wire[-48:].hex()))
+        else:
+            ctx.inconcl("closerace %s scenario %s: %s (also when re-run in isolation with generous bounds)" % (kind, r["i"], cls[1]))
+        return None
     ctx.obs("race:%s:close_frame_seen" % kind)
     late = [f for f in frames[at + 1:] if f.opcode in (g.OP_TEXT, g.OP_BIN, g.OP_CONT)]
     if late:
@@ -487,9 +525,33 @@ def judge_race(ctx, r, flavor):
         ctx.violation("C18:%s:data-after-close-frame:%s" % (side, origin),
                       "%d data frame(s) on the wire behind the %s's close frame (frame %d of %d); first late payload %r; close initiated by: %s"
                       % (len(late), side, at, len(frames), late[0].payload[:24], origin), dict(det, close_index=at, late=len(late)))
+    return None
 
 
-# ------------------------------------------------------------------------------------------------
+def resolve_races(ctx, B, pending):
+    """every scenario whose first capture showed no (owed) close frame, or that hit a harness error, is
+    re-run ONCE, alone, with generous bounds; only what the re-run shows is reported."""
+    if not pending:
+        return
+    def one(p):
+        i, fl = p["r"]["i"], p["flavor"]
+        out = os.path.join(ctx.tmp, "race-iso-%s-%d.jsonl" % (fl, i))
+        return vf.run_harness(B[fl], ["--mode", "closerace", "--seed", ctx.seed, "--from", i, "--count", 1, "--close-wait-ms", 30000, "--probe-wait-ms", 30000,
+                                      "--quiet-ms", 300, "--out", out], timeout=600, out_file=out)
+    rrs = vf.run_many(ctx, [lambda p=p: one(p) for p in pending], workers=4)   # few at a time: these are the cases that starved
+    for p, rr in zip(pending, rrs):
+        ctx.obs("race:scenarios_rerun_in_isolation")
+        ctx.ingest(rr, where="(closerace isolated re-run, %s)" % p["flavor"])
+        rec = next((x for x in rr.records if x.get("t") == "race"), None)
+        if rec is None:
+            ctx.inconcl("closerace %s scenario %s: %s; the isolated re-run produced no record (rc=%s timed_out=%s)"
+                        % (p["r"]["kind"], p["r"]["i"], p["cls"][-1], rr.rc, rr.timed_out))
+            continue
+        before = len(ctx.violations), len(ctx.inconclusive)
+        judge_race(ctx, rec, p["flavor"], final=True)
+        if (len(ctx.violations), len(ctx.inconclusive)) == before:
+            ctx.obs("race:first_capture_without_close_frame_not_reproduced")
+
 
 # ------------------------------------------------------------------------------------------------
 # optional libFuzzer runs (thorough)
@@ -674,6 +736,7 @@ def run(ctx):
 
     judge = Judge(ctx)
     done_shards = []
+    race_pending = []
     for kind, sub, fl, res in results:
         if kind == "fuzz":
             fuzz_judge(ctx, res, sub)
@@ -708,9 +771,12 @@ def run(ctx):
                     ctx.inconcl(rr.bad)
                 for r in rr.records:
                     if r.get("t") == "race":
-                        judge_race(ctx, r, fl)
+                        p = judge_race(ctx, r, fl)
+                        if p is not None:
+                            race_pending.append(p)
         else:
             done_shards.append(res)
+    resolve_races(ctx, B, race_pending)
 
     # ---- judge endpoint cases; watchdog-dependent verdicts are re-run once in isolation
     retry = []
@@ -833,6 +899,8 @@ def run(ctx):
         "WebSocketClient has no configurable maximum: declared lengths that are merely huge are only judged there for exceptions and over-allocation",
         "messages after the first non-UTF-8 text message of a stream, and what follows hostile bytes, are not judged (the endpoint may fail the connection there)",
         "a verdict that depends on a wall-clock wait (lost sync) is only reported when the same key is reproduced by an isolated re-run with longer waits",
+        "close races: a capture without the owed close frame is re-run once alone with 30 s bounds; EOF without a close frame, or a pong for the liveness probe without a close frame, is a violation; "
+        "an open connection that returns nothing at all stays inconclusive",
         "RSV bits / extensions: only robustness is judged",
     ]
     ctx.require_obs("frame:roundtrips", "frame:truncations_checked", "frame:len_form_7bit", "frame:len_form_16bit", "frame:len_form_64bit",
@@ -862,7 +930,8 @@ def replay(ctx, path):
             ctx.ingest(rr, where="(replay closerace)")
             for r in rr.records:
                 if r.get("t") == "race":
-                    judge_race(ctx, r, flavor)
+                    p = judge_race(ctx, r, flavor)
+                    resolve_races(ctx, {flavor: binary}, [p] if p else [])
                     print(json.dumps({k: (v if k != "wire" else v[:200]) for k, v in r.items()}, indent=1))
         return
     corp = corpora(ctx.seed, ctx.tier)
